@@ -813,6 +813,9 @@ class History:
                     sh = [1] + sh
                 elif c < 0.24:
                     sh = [s + 1 for s in sh] or [2]
+                elif c < 0.36 and len(sh) >= 2:
+                    # partial broadcasting: some axes of length 1, leading axes dropped
+                    sh = [1 if rng.random() < 0.5 else s for s in sh][rng.randint(0, len(sh) - 1):]
                 elif not sh:
                     sh = [1]
                 if rng.random() < 0.05 and len(sp) >= 2:
